@@ -24,3 +24,7 @@ add('C09', 'exploration', 'bounded exhaustive enumeration of bracket/block fragm
 add('C07', 'exploration', 'bounded exhaustive enumeration of fragment strings x option sets (deviation-bounded) through every entry point and accessor',
     'Every fragment sequence up to the bound goes through parse + every accessor on every node + split; fragment sequences and option deviations share one budget for format() (long inputs x one option set per filter, short inputs x every option set within 1-3 deviations); every documented option x invalid-value menu with an instrumented input. Exhaustive within the stated bounds.',
     _E1 + ' Documented options per docs/source/api.rst; right_margin excluded (unimplemented by design).', 'DESIGN.md 4/C07')
+_E2 = 'Trusted: CPython; the verification grammar of DESIGN 3 (vlib/grammar.py) as the program space; the real lexer as judge of token boundaries; everything is bounded by the deviation count d.'
+add('C06', 'exploration', 'deviation-bounded exhaustive enumeration of grammar derivations x comment placements x layout option sets',
+    'Every case within d deviations (derivation alternative, comment of 8 kinds in any gap, literal/name spelling, uniform respelling style, gap toggle) of 40 seed derivations, crossed with every layout option set within k option deviations (thorough: the full 776-set layout product per seed), is formatted by the real code; the significant-token signature and statement count of the output are compared with the input. Exhaustive within d/k.',
+    _E2, 'DESIGN.md 4/C06')
